@@ -89,6 +89,24 @@ fn ip_fields(fs: &[ipfix::TemplateField]) -> Vec<FSpec> {
         .collect()
 }
 
+pub fn def_v9_tpl(t: &v9::Template) -> TDef {
+    TDef::Tpl { field_count: t.field_count, fields: v9_fields(&t.fields) }
+}
+pub fn def_v9_opt(t: &v9::OptionsTemplate) -> TDef {
+    TDef::V9Opt {
+        scope_len: t.options_scope_length,
+        opt_len: t.options_length,
+        scope: t.scope_fields.iter().map(|f| FSpec { typ: f.field_type_number, len: f.field_length, ent: None }).collect(),
+        opts: v9_fields(&t.option_fields),
+    }
+}
+pub fn def_ip_tpl(t: &ipfix::Template) -> TDef {
+    TDef::Tpl { field_count: t.field_count, fields: ip_fields(&t.fields) }
+}
+pub fn def_ip_opt(t: &ipfix::OptionsTemplate) -> TDef {
+    TDef::IpOpt { field_count: t.field_count, scope_count: t.scope_field_count, fields: ip_fields(&t.fields) }
+}
+
 pub fn snap(p: &NetflowParser) -> CacheSnap {
     let mut s = CacheSnap::new();
     for (id, t) in &p.v9_parser.templates {
